@@ -114,7 +114,11 @@ def gen_literals(tier):
     for i in range(0, 1101):
         yield {'lvl': 'LIT', 'text': str(i)}
     for t in ['007', '00.5', '0.50', '123456789012345', '1234567890.12345', '0.000001', '999999999999999',
-              '0.1', '0.7', '1.1', '2.675', '1.005', '4.35', '0.07']:
+              '0.1', '0.7', '1.1', '2.675', '1.005', '4.35', '0.07',
+              # 16 and 17 significant digits: the literal still denotes the double nearest to its text
+              '0.30000000000000004', '0.3000000000000000', '1.0000000000000002', '1.000000000000001', '1234567890123456',
+              '1234567890123457', '9007199254740993', '0.1234567890123456', '0.12345678901234568', '123456789.12345678',
+              '0.000012345678901234567', '4.35000000000000053', '2.6749999999999998', '179769313486231570000', '0.1000000000000000055511']:
         yield {'lvl': 'LIT', 'text': t}
     mant = ['1', '1.1', '2.5', '1.15', '9.99', '123', '0.5', '3.3', '7.07', '1.23456']
     for m in mant:
